@@ -329,6 +329,9 @@ func quote(s string) string {
 // handleDir chooses either the out dir or the actual output location depending on the 'dir' flag.
 func handleDir(outDir, output string, dir bool) string {
 	if dir {
+		if outDir == "" {
+			return "." // the repository's root package
+		}
 		return outDir
 	}
 	return filepath.Join(outDir, output)
